@@ -60,43 +60,72 @@ def build_space(name):
     return p.dna_spec(p.Dict(a=p.oneof([1, 2, 3]), b=p.oneof([1, 2, 3, 4])))
   if name == 's2':
     return p.dna_spec(p.oneof([0, 1]))
+  if name == 'sf':
+    return p.dna_spec(p.Dict(x=p.floatv(0.0, 1.0), a=p.oneof([1, 2, 3])))
+  if name == 'sff':
+    return p.dna_spec(p.floatv(-1.0, 1.0))
   if name == 's24':
     return p.dna_spec(p.Dict(a=p.oneof([1, 2, 3, 4]), b=p.oneof(['x', 'y', 'z']), c=p.oneof([0, 1])))
   raise KeyError(name)
 
 SPACE_NAMES = ['s6', 's4', 's3h', 's3m', 's8', 's12', 's2', 's24']
 
+_DRAWS = {}
+INFINITE = ('sf', 'sff')
+
+def bare_clone(d):
+  return pg().DNA(d.value, [bare_clone(c) for c in d.children])
+
 class Space:
+  """A search space with its DNAs numbered: by DNASpec.next_dna order when finite; in order of first appearance
+  within a run when it has float decision points (the registry is reset at the start of every run)."""
   _cache = {}
   def __init__(self, name):
     self.name = name
     self.spec = build_space(name)
-    self.dnas = []
-    d = None
-    while True:
-      d = self.spec.next_dna(d)
-      if d is None:
-        break
-      self.dnas.append(d)
-    self.index = {self.key(d): i for i, d in enumerate(self.dnas)}
-    assert len(self.index) == len(self.dnas)
-    self.m = len(self.dnas)
-    p = pg()
-    self.hash_index = {p.hash(d): i for i, d in enumerate(self.dnas)}
-    assert len(self.hash_index) == self.m
+    self.finite = name not in INFINITE
     self.keymap = {}
+    self.reset(force=True)
+  def reset(self, force=False):
+    if self.finite and not force:
+      return
+    self.dnas, self.index, self.hash_index = [], {}, {}
+    if self.finite:
+      d = None
+      while True:
+        d = self.spec.next_dna(d)
+        if d is None:
+          break
+        self._register(d)
+      self.m = len(self.dnas)
+      assert len(self.hash_index) == self.m
+    else:
+      self.m = 10 ** 6
+      for k in [k for k in _DRAWS if k[0] == self.name]:
+        del _DRAWS[k]
+  def _register(self, d):
+    i = len(self.dnas)
+    b = bare_clone(d) if not self.finite else d
+    self.dnas.append(b)
+    self.index[self.key(d)] = i
+    self.hash_index[pg().hash(b)] = i
+    return i
   @staticmethod
   def key(d):
     return json.dumps(d.to_numbers())
   def idx(self, d):
-    return self.index[self.key(d)]
+    k = self.key(d)
+    if k not in self.index:
+      if self.finite:
+        raise KeyError(k)
+      return self._register(d)
+    return self.index[k]
   @classmethod
   def get(cls, name):
     if name not in cls._cache:
       cls._cache[name] = Space(name)
     return cls._cache[name]
 
-_DRAWS = {}
 def draws(space, seed, n):
   """The first n DNAs (as indices) drawn by pg.geno.Random(seed) on the space — the recorded PRNG table given to the model."""
   k = (space.name, seed)
@@ -211,10 +240,16 @@ def reward_value(case, space, cfg, d):
   if 'reward' in d.metadata and d.metadata.get('feedback_sequence_number') is None:
     return d.metadata['reward']          # computed by Deduping(auto_reward_fn), what pg.sample feeds back
   i = space.idx(d)
-  r = case['rewards'][i]
+  r = reward_base(case, space, d)
   if multi_objective(cfg):
     return (float(r), float((space.m - 1 - i + r) % 5))
   return float(r)
+
+def reward_base(case, space, d):
+  """The reward as a function of the DNA: a table over the enumeration, or (float spaces) over a digest of the values."""
+  if space.finite:
+    return case['rewards'][space.idx(d)]
+  return case['rewards'][int(sum(abs(x) * 9973 for x in d.to_numbers())) % len(case['rewards'])]
 
 def pack_reward(r):
   if r is None:
@@ -238,6 +273,8 @@ def canon_key(space, key, d=None):
     return space.hash_index[key]
   if d is not None and 'proposal_id' in d.metadata:
     space.keymap[key] = space.m + d.metadata['proposal_id']
+  elif d is not None and not space.finite:
+    space.keymap[key] = space.idx(d)
   return space.keymap[key]
 
 def enc_dna(space, d):
@@ -310,6 +347,7 @@ class Live:
     import random as _random
     _random.seed(json.dumps(case, sort_keys=True))     # unseeded generators / selectors draw from the global PRNG
     space.keymap = {}
+    space.reset()
     repro = []
     alg = self.fresh(repro)
     ev = find_evo(alg)
@@ -578,15 +616,18 @@ def gen_case(rng, kind, n=None, lag=None):
     # keep a generation larger than the number of proposals in flight and make the rewards distinct
     cfg[1] = max(cfg[1], maxlag + 2)
     names = [x for x in SPACE_NAMES if Space.get(x).m >= 6]
+  if kind in ('rand', 'dedup-rand', 'regevo', 'hill', 'nsga2', 'neat', 'dedup-regevo', 'dedup-hill') and rng.random() < 0.2:
+    names = list(INFINITE)         # spaces with float decision points
   sp = rng.choice(names)
   space = Space.get(sp)
   if lag is not None:
     sched = lag_sched(n, lag)
   else:
     sched = gen_sched(rng, n, maxlag, rng.random() < 0.3)
-  rewards = [rng.randrange(0, 6) for _ in range(space.m)]
+  nr = space.m if space.finite else 11
+  rewards = [rng.randrange(0, 6) for _ in range(nr)]
   if kind == 'neat':
-    rewards = list(range(space.m)); rng.shuffle(rewards)
+    rewards = list(range(nr)); rng.shuffle(rewards)
   return dict(space=sp, alg=cfg, rewards=rewards, sched=sched)
 
 # ------------------------------------------------------------------------------------------------
@@ -633,10 +674,11 @@ def model_case(case, res):
   space = Space.get(case['space'])
   cfg = case['alg']
   need = random_need(res['live'])
+  base = list(case['rewards']) if space.finite else [reward_base(case, space, d) for d in space.dnas]
   if multi_objective(cfg):
-    rewards = [pack_reward((float(r), float((space.m - 1 - i + r) % 5))) for i, r in enumerate(case['rewards'])]
+    rewards = [pack_reward((float(r), float((space.m - 1 - i + r) % 5))) for i, r in enumerate(base)]
   else:
-    rewards = list(case['rewards'])
+    rewards = base
   return [enc_alg(cfg, space, res, need, res['live']), space.m, rewards, [EV[e] for e in case['sched']]]
 
 def evaluate_full(case):
